@@ -22,6 +22,7 @@ RULE = ("Scenario = code method x peer present/absent x matching/wrong code x se
         "released and the mailbox closed with the verdict's mood; service stopped, connection gone. Non-trivial = "
         "trigger issued while Nameplate/Mailbox were not in their idle-connected/claimed-open states, or while "
         "messages were in flight, or with a loss after it. Distinct = (features incl. N/M state at trigger, trace).")
+RULE += (' Added later: WebSocket CLOSING window, outages (consecutive failed reconnection attempts), raw UTF-8 server JSON with non-ASCII welcome texts.')
 ASSUMPTIONS = ["simulated WebSocket layer incl. autobahn's keep-draining-the-chunk behaviour after stopService",
                "real mailbox server; resources the client was never told about (lost `allocated`/`claimed` replies) "
                "are tallied as unknown-resource, not demanded"]
